@@ -178,6 +178,19 @@ CLAIMS = {
         technique="constant evaluation of the size expressions over the finite netmask range; must-fact dataflow at every "
                   "result site of the lookup; loop-bound agreement",
         design="5 C18"),
+    "C19": dict(
+        text="Clause-level structural decision: in login_calculate the 32-byte work buffer is a plain copy of pass[0..31], the "
+             "word loop runs 8 times and every bit of every word is proven (XOR-set provenance through ntohl/htonl) to be the "
+             "password bit XOR the corresponding bit of the big-endian challenge, 32 bytes are hashed with a fresh MD5 state "
+             "into the caller's buffer; at the six login sites the digest compared with or sent to the peer is, on every path, the "
+             "output of login_calculate(.., password, challenge+offset) computed in the same event with the documented offset (0, "
+             "+1 towards the server, -1 back) for the same session; the digest sits at bytes 1..16 of the login message on both "
+             "ends; all 64 MD5 steps (register order, round-function truth table, message word, rotation, additive constant "
+             "recomputed from sin), the initial state and the padding byte equal RFC 1321. Not decided: digest equality for all "
+             "inputs (the MD5 block loop, padding and length encoding are not proven).",
+        technique="bit-level XOR-set provenance, must-fact dataflow for call-result facts, table agreement against RFC 1321 "
+                  "recomputed in the checker",
+        design="5 C19"),
 }
 
 NA = {
